@@ -28,50 +28,105 @@ type Field struct {
 	End      int // offset after the value
 }
 
+// uvarint reads a varint the way the generated (vtproto) decoders do: at most 10 bytes,
+// surplus high bits of the 10th byte are dropped rather than rejected.
 func uvarint(b []byte) (uint64, int) {
-	v, n := binary.Uvarint(b)
-	if n <= 0 {
-		return 0, -1
+	var v uint64
+	for i := 0; i < len(b) && i < 10; i++ {
+		v |= uint64(b[i]&0x7f) << (7 * uint(i))
+		if b[i] < 0x80 {
+			return v, i + 1
+		}
 	}
-	return v, n
+	return 0, -1
 }
 
 // AppendUvarint appends the minimal varint encoding of v.
 func AppendUvarint(b []byte, v uint64) []byte { return binary.AppendUvarint(b, v) }
 
+// Wire types of groups (deprecated in protobuf, but decoders still skip them).
+const (
+	WireStartGroup = 3
+	WireEndGroup   = 4
+)
+
+// skipValue returns the offset after the value of a field with the given wire type that
+// starts at b[i:], mirroring protohelpers.Skip (groups are skipped by depth counting, the
+// field numbers of start/end tags are not matched). -1 = malformed.
+func skipValue(b []byte, i, wire int) int {
+	switch wire {
+	case WireVarint:
+		_, m := uvarint(b[i:])
+		if m < 0 {
+			return -1
+		}
+		return i + m
+	case WireFixed64:
+		i += 8
+	case WireFixed32:
+		i += 4
+	case WireBytes:
+		l, m := uvarint(b[i:])
+		if m < 0 || l > uint64(len(b)) {
+			return -1
+		}
+		i += m + int(l)
+	case WireStartGroup:
+		depth := 1
+		for depth > 0 {
+			if i >= len(b) {
+				return -1
+			}
+			tag, n := uvarint(b[i:])
+			if n < 0 {
+				return -1
+			}
+			i += n
+			switch w := int(tag & 7); w {
+			case WireStartGroup:
+				depth++
+			case WireEndGroup:
+				depth--
+			default:
+				if i = skipValue(b, i, w); i < 0 {
+					return -1
+				}
+			}
+		}
+	default:
+		return -1
+	}
+	if i > len(b) {
+		return -1
+	}
+	return i
+}
+
 // Parse splits b into top-level fields. ok=false if b is not a well-formed sequence of
-// fields (groups are not supported).
+// fields. Acceptance mirrors the generated decoders for UNKNOWN fields: field number must be
+// a positive int32, wire types 6/7 and a top-level end-group are malformed, groups are
+// skipped as one field (Wire = WireStartGroup, value = everything up to and including the
+// matching end tag).
 func Parse(b []byte) (fields []Field, ok bool) {
 	i := 0
 	for i < len(b) {
 		tag, n := uvarint(b[i:])
-		if n < 0 || tag>>3 == 0 || tag>>3 > 1<<29-1 {
+		if n < 0 || int32(tag>>3) <= 0 {
 			return nil, false
 		}
-		f := Field{Num: int(tag >> 3), Wire: int(tag & 7), Start: i}
+		f := Field{Num: int(int32(tag >> 3)), Wire: int(tag & 7), Start: i}
 		i += n
-		switch f.Wire {
-		case WireVarint:
-			_, m := uvarint(b[i:])
-			if m < 0 {
-				return nil, false
-			}
-			f.ValStart, f.End = i, i+m
-		case WireFixed64:
-			f.ValStart, f.End = i, i+8
-		case WireFixed32:
-			f.ValStart, f.End = i, i+4
-		case WireBytes:
-			l, m := uvarint(b[i:])
-			if m < 0 || l > uint64(len(b)) {
-				return nil, false
-			}
-			f.ValStart, f.End = i+m, i+m+int(l)
-		default:
+		if f.Wire == WireEndGroup {
 			return nil, false
 		}
-		if f.End > len(b) {
+		end := skipValue(b, i, f.Wire)
+		if end < 0 {
 			return nil, false
+		}
+		f.ValStart, f.End = i, end
+		if f.Wire == WireBytes {
+			_, m := uvarint(b[i:])
+			f.ValStart = i + m
 		}
 		i = f.End
 		fields = append(fields, f)
